@@ -16,8 +16,13 @@ def main(argv):
     tier = os.environ.get("VERIF_TIER", "quick")
     if "--tier" in argv:
         tier = argv[argv.index("--tier") + 1]
-    mod = importlib.import_module("props." + prop)
-    return mod.run(tier)
+    try:
+        mod = importlib.import_module("props." + prop)
+        return mod.run(tier)
+    except Exception:            # an internal error of the machinery is never reported as a violation (exit 1)
+        import traceback
+        sys.stderr.write("HARNESS-ERROR %s: %s\n" % (prop, traceback.format_exc()[-1500:]))
+        return 3
 
 
 if __name__ == "__main__":
